@@ -453,6 +453,10 @@ def run_long(chk, drv, corpus):
             except Exception:
                 mv = o
             if isinstance(mv, str) or not close(mv, im, 1e-9):
+                # a cdf next to 0 is 1 - exp(-z) with z ~ 1e-9: both sides carry the absolute rounding of that subtraction (a few ulp
+                # of 1), which is not small relative to the value itself -- an honest tolerance is absolute there
+                if op == "cdf" and not isinstance(mv, str) and abs(float(mv) - float(im)) <= 8 * 2.0 ** -53:
+                    continue
                 if op == "invcdf" and v == 0.0 and im == -math.inf and mv == -math.inf:
                     continue
                 if op != "invcdf" and inp["dist"] == "wb" and v < float(inp["params"][0]):
